@@ -432,3 +432,17 @@ def report_disagreements(ctx, name, failing_cases, model, found_keys):
                       "model %s and the implementation disagree (stream %s); no direct failure of the property found on this case" % (model, name),
                       {"theorem_or_correspondence": "correspondence " + model, "case": c.get("desc"), "coq_case": c.get("coq")[:2000]},
                       found_input=False)
+
+
+def write_registry_data(gd, entries_coq):
+    """RegistryData.v: the model registry rebuilt (inside Coq, by the model's own register) from the
+    registration-order entries dumped from the running build."""
+    p = os.path.join(gd, "RegistryData.v")
+    with open(p, "w") as f:
+        f.write("From ZL Require Import Base.Bytes Framework.Core Framework.Registry Framework.Script.\nOpen Scope Z_scope.\n")
+        f.write("Definition entries : list (kind * bytes * bytes) := [\n  " + ";\n  ".join(entries_coq) + "\n].\n")
+        f.write("Definition real_registry : sregistry := Eval vm_compute in reg_of entries.\n")
+    ok, out = coqc(p, timeout=900)
+    if not ok:
+        raise BuildBroken("generated RegistryData.v does not compile: " + out[-2000:])
+    return p
